@@ -58,12 +58,15 @@ Definition slice_all_lim : M (list N) := fun s =>
   end.
 
 (* Primitive::with_slice_all op: op's error is a content error; the source is
-   advanced only when op succeeds *)
-Definition with_slice_all {T} (op : list N -> option T) : M T :=
+   advanced only when op succeeds. op may itself panic (slice indexing). *)
+Definition with_slice_all {T} (op : list N -> res T) : M T :=
   c <- slice_all_lim ;;
   match op c with
-  | None => cerr
-  | Some v => advance (len c) ;;; ret v
+  | Ok v => advance (len c) ;;; ret v
+  | CErr => cerr
+  | SErr => fun s => (SErr, s)
+  | Panic => panic
+  | NoFuel => nofuel
   end.
 
 (* LimitedSource::exhausted *)
@@ -73,6 +76,10 @@ Definition src_exhausted : M unit := fun s =>
   | Some _ => (CErr, s)
   | None => (tick ;;; fun s' => match rem s' with [] => (Ok tt, s') | _ => (CErr, s') end) s
   end.
+
+(* octets visible through the limit: what slice() can show *)
+Definition visible (s : src) : list N :=
+  match lim s with None => rem s | Some l => firstN l (rem s) end.
 
 (* Primitive::remaining *)
 Definition remaining : M N := fun s =>
